@@ -298,12 +298,18 @@ func (p *poller) readWriteLoop() {
 						}
 					}
 
+					// Set when input may still be unread after this event: by a
+					// read task running elsewhere, or because the loop below
+					// stopped at its limit.
+					readPending := false
 					if ev.Events&epollEventsRead != 0 {
 						if g.onRead == nil {
 							if asyncReadEnabled {
 								c.AsyncRead()
+								readPending = true
 							} else {
-								for i := 0; i < g.MaxConnReadTimesPerEventLoop; i++ {
+								i := 0
+								for ; i < g.MaxConnReadTimesPerEventLoop; i++ {
 									pbuf := g.borrow(c)
 									bufLen := len(*pbuf)
 									rc, n, err := c.ReadAndGetConn(pbuf)
@@ -326,6 +332,7 @@ func (p *poller) readWriteLoop() {
 										break
 									}
 								}
+								readPending = i >= g.MaxConnReadTimesPerEventLoop
 								if isOneshot {
 									c.ResetPollerEvent()
 								}
@@ -336,6 +343,13 @@ func (p *poller) readWriteLoop() {
 					}
 
 					if ev.Events&epollEventsError != 0 {
+						// A peer that sent and then closed is reported with its
+						// data still queued. Closing now would throw away what
+						// has not been read yet: the reader gets to the end of
+						// the stream (or to the error) itself and closes then.
+						if readPending {
+							continue
+						}
 						_ = c.closeWithError(io.EOF)
 						continue
 					}
